@@ -382,6 +382,115 @@ def normalise(F, fn, keep=(), depth=3, _stack=()):
         cur = B.raw
     if not changed_any:
         return fn
+    if not _stack:
+        thread_try(B)
     out = facts.Fn(B.raw, fn.crate)
     out.inlined_ids = tuple(B.ids)
     return out
+
+
+CONTINUES = {"Ok": True, "Some": True, "Err": False, "None": False}
+
+
+def thread_try(B):
+    """`helper(..)?` with the helper's body in place: every place where the helper returned writes `R = Ok(..)` / `R = Err(..)` and
+    jumps to the one block that calls `Try::branch(R)` and then switches on Continue / Break.  On the control-flow graph the Err
+    write reaches the Continue side; it cannot, and the rules that ask "is this call only reachable when the helper's test
+    passed" need to know.  Each known-variant write gets its own copy of the (value-preserving) blocks between the write and the
+    switch, and the copy's switch is the jump the variant takes.  Nothing is removed: the call of `Try::branch` stays (access
+    paths go through it), unknown-variant writers keep using the original blocks."""
+    blocks = B.raw["blocks"]
+    n0 = len(blocks)
+    preds = {}
+    for i, b in enumerate(blocks):
+        t = b["term"]
+        if t and t["k"] == "goto" and isinstance(t.get("target"), int):
+            preds.setdefault(t["target"], []).append(i)
+
+    def transparent(b, r):
+        """only moves r on (`x = move r`), storage statements or nothing; returns the local the value is in afterwards, or None"""
+        cur = r
+        for st in b["stmts"]:
+            if st.get("k") != "assign":
+                continue
+            rv = st["rv"]
+            if rv.get("k") == "use" and place_of(rv["a"]) is not None and not place_of(rv["a"])["p"] and not st["place"]["p"]:
+                if place_of(rv["a"])["l"] == cur:
+                    cur = st["place"]["l"]
+                    continue
+            return None
+        return cur
+    done = 0
+    for j in range(n0):
+        bj = blocks[j]
+        t = bj["term"]
+        if not t or t["k"] != "call" or "callee" not in t or not t["callee"]["path"].endswith("Try>::branch") or bj["cleanup"]:
+            continue
+        a = place_of(t["args"][0]) if t["args"] else None
+        tgt = t.get("target")
+        if a is None or a["p"] or not isinstance(tgt, int) or tgt >= n0:
+            continue
+        bt = blocks[tgt]
+        sw = bt["term"]
+        if not sw or sw["k"] != "switch":
+            continue
+        d = place_of(sw["discr"])
+        dstm = [st for st in bt["stmts"] if st.get("k") == "assign" and d is not None and st["place"]["l"] == d["l"] and st["rv"].get("k") == "discr"]
+        if len(dstm) != 1 or dstm[0]["rv"]["place"]["l"] != t["dest"]["l"] or dstm[0]["rv"]["place"]["p"]:
+            continue
+        tmap = dict((v, tb) for v, tb in sw["targets"])
+        if 0 not in tmap or 1 not in tmap:
+            continue
+        # statements of J before the call must not redefine the operand
+        if any(st.get("k") == "assign" and st["place"]["l"] == a["l"] for st in bj["stmts"]):
+            continue
+        # walk back from J through transparent blocks to writers `R = Ok/Err/Some/None(..)`
+        work = [(j, a["l"], [])]
+        seen = set()
+        while work:
+            blk, r, chain = work.pop()
+            for pidx in preds.get(blk, []):
+                if (pidx, r) in seen or len(chain) > 3 or pidx >= n0:
+                    continue
+                seen.add((pidx, r))
+                pb = blocks[pidx]
+                # last write of r in the predecessor
+                w = None
+                cur = r
+                ok = True
+                for st in reversed(pb["stmts"]):
+                    if st.get("k") != "assign" or st["place"]["l"] != cur:
+                        continue
+                    if st["place"]["p"]:
+                        ok = False
+                        break
+                    rv = st["rv"]
+                    if rv.get("k") == "agg" and rv.get("variant") in CONTINUES and str(rv.get("adt", "")).endswith(("result::Result", "option::Option")):
+                        w = rv["variant"]
+                        break
+                    if rv.get("k") == "use" and place_of(rv["a"]) is not None and not place_of(rv["a"])["p"]:
+                        cur = place_of(rv["a"])["l"]
+                        continue
+                    ok = False
+                    break
+                if not ok:
+                    continue
+                if w is None:
+                    # nothing decisive here: the value comes from further back, if this block only passes it on
+                    if cur is not None and all(st.get("k") != "assign" or (st["rv"].get("k") == "use" and not st["place"]["p"]) for st in pb["stmts"]):
+                        work.append((pidx, cur, [pidx] + chain))
+                    continue
+                # specialise: copies of chain + J + T for this variant
+                side = tmap[0] if CONTINUES[w] else tmap[1]
+                t_new = B.block(list(bt["stmts"]), {"k": "goto", "target": side, "loc": sw["loc"]})
+                jt = dict(t)
+                jt["target"] = t_new
+                nxt = B.block(list(bj["stmts"]), jt)
+                for cidx in reversed(chain):
+                    cb = blocks[cidx]
+                    nxt = B.block(list(cb["stmts"]), {"k": "goto", "target": nxt, "loc": cb["term"]["loc"]})
+                pt = dict(pb["term"])
+                pt["target"] = nxt
+                pb["term"] = pt
+                done += 1
+    return done
